@@ -318,3 +318,65 @@ SPECS["C19"] = dict(
     + [c19("cons_%s_b9" % GEOMS[g], "harness_consistency", g, 9, "thorough", timeout=1800) for g in range(1, 9)]
     + [c19("pure_square_b4", "harness_purity", 2, 4, "thorough", timeout=2400), c19("pure_torus_b4", "harness_purity", 3, 4, "thorough", timeout=2400)],
 )
+
+H4 = {"VERIF_MAX_NODES": 4, "VERIF_MAX_THREADS_EXP": 2}
+
+
+def pq(name, func, tier="quick", h=4, defs=None, timeout=1500, mem_est=9, **kw):
+    d = dict(H4)
+    d["H"] = h
+    d.update(defs or {})
+    return Q(name, "c01_process.c", tier=tier, func=func, defs=d, unwind=12, timeout=timeout, mem_gb=20, mem_est=mem_est, cost=mem_est,
+             bounds=kw.pop("bounds", "one real call from an arbitrary LP history of <= %d entries (processed / local-sent / remote-sent, arbitrary timestamps incl. ties, types, 0..1 payload bytes, arbitrary flag states)" % h), **kw)
+
+
+P_L1 = pq("L1_match_straggler", "harness_L1", h=5, mem_est=2)
+P_L2 = pq("L2_match_anti", "harness_L2", h=5, mem_est=1)
+P_L3 = pq("L3_do_rollback", "harness_L3", h=5)
+P_L4 = pq("L4_send_anti_messages", "harness_L4", h=5)
+P_STEP0 = pq("step_fresh_event", "harness_step", defs={"MODE": 0}, bounds="one real process_msg() of a fresh local event (in order / tie / straggler) from an arbitrary history of <= 4 entries; model schedules 0..2 events; checkpoint interval 1..3")
+P_STEP1 = [pq("step_local_anti_ak%s" % ("none" if ak > 3 else ak), "harness_step", defs={"MODE": 1, "AK": ak},
+              mem_est=(1 if ak > 3 else 9),
+              bounds="one real process_msg() of a cancelled local message: " + ("not yet processed (dropped)" if ak > 3 else "already processed as history entry %d (rollback)" % ak)) for ak in (0, 1, 2, 3, 9)]
+P_EARLY = pq("remote_event_vs_early_antis", "harness_early", h=2, mem_est=1, bounds="real check_early_anti_messages: a remote event against 3 parked early anti-messages with arbitrary distinct ids")
+P_RANTI = [pq("remote_anti_ak%s" % ("none" if ak > 3 else ak), "harness_ranti", defs={"AK": ak}, mem_est=8,
+              bounds="real handle_remote_anti_msg: " + ("event not arrived yet (parked, then annihilates the event)" if ak > 3 else "event is history entry %d among other remote events with different ids" % ak)) for ak in (0, 1, 3, 9)]
+
+PROC_ASSUME = ["message queue, message-buffer free lists, allocator checkpoint take/restore, termination hooks, fossil collection, GVT hook and MPI sends are recording contract stubs (discharged by C15, C05, C07, C13, C04, C02 checks respectively)",
+               "history invariant assumed for the pre-state: processed entries pairwise ordered (no later one before an earlier one), newest entry a processed event, sent entries precede the event that sent them; its preservation is asserted by the step queries",
+               "composition of the lemmas into the end-to-end equivalence is a written argument (DESIGN.md C01), not machine-checked; the bounded end-to-end run was not tractable"]
+
+SPECS["C01"] = dict(
+    level="model_checking",
+    encodes=["lp/process.c:process_msg", "match_straggler_msg", "match_anti_msg", "do_rollback", "silent_execution", "send_anti_messages", "handle_straggler_msg", "handle_anti_msg", "ScheduleNewEvent", "checkpoint_take"],
+    assumptions=PROC_ASSUME,
+    outside=["the end-to-end bounded run (no verdict in the design probes)", "histories longer than the bound", "thread counts > 2 (C06/C15 carry the concurrency part)"],
+    level_text="function-level obligations (lemmas L1-L5 of DESIGN.md) on the real lp/process.c decided by CBMC for all histories within the bound; the end-to-end equivalence is argued from them, not machine-checked",
+    queries=[P_L1, P_L2, P_L3, P_L4, P_STEP0, P_STEP1[1], P_STEP1[4],
+             pq("L1_match_straggler_h7", "harness_L1", tier="thorough", h=7, mem_est=6, timeout=3000, replaces="L1_match_straggler"),
+             pq("step_fresh_event_h5", "harness_step", tier="thorough", h=5, defs={"MODE": 0}, mem_est=20, timeout=3600)],
+)
+SPECS["C03"] = dict(
+    level="model_checking",
+    encodes=["lp/process.c:process_msg", "match_straggler_msg", "send_anti_messages", "gvt/fossil.c:fossil_lp_collect", "mm/buddy/multi.c:model_allocator_fossil_lp_collect"],
+    assumptions=PROC_ASSUME + ["committed = removed by fossil collection: C13's query shows the removed part is a prefix of committed events only"],
+    outside=["the end-to-end commit monitor on a bounded run (not tractable)"],
+    level_text="lemma level: every LP history is only ever cut at the tail (rollback, to the exact position the event order dictates, ties included) or at the head (fossil collection of a committed prefix); never reordered, duplicated or cut in the middle",
+    queries=[P_L1, P_STEP0, SPECS["C13"]["queries"][0]],
+)
+SPECS["C06"] = dict(
+    level="model_checking",
+    encodes=["lp/process.c:send_anti_messages", "handle_anti_msg", "handle_remote_anti_msg", "check_early_anti_messages", "process_msg", "lp/msg.h flag word"],
+    assumptions=PROC_ASSUME + ["concurrency: each operation touches a buffer's shared flag word by exactly one atomic read-modify-write and decides from its return value only (mover argument, DESIGN.md C06); the single real operations are checked from every flag state"],
+    outside=["more than 2 threads interleaving on one buffer", "MPI wire"],
+    level_text="single real operations from every flag state of the cancelled buffer (queued, processed, cancelled before/after processing, remote early/late): exactly-once release, exactly-once re-queue, nothing of the kept prefix touched",
+    queries=[P_L4] + P_STEP1 + [P_EARLY] + P_RANTI,
+)
+SPECS["C02"] = dict(
+    level="model_checking",
+    encodes=["lp/process.c:handle_remote_anti_msg", "check_early_anti_messages", "send_anti_messages (remote branch)"],
+    assumptions=PROC_ASSUME + ["component level only: one remote event and its anti-message on the receiving side, all arrival orders; ids of distinct messages are distinct (stamping is gvt.h)"],
+    outside=["the end-to-end distributed equivalence", "the distributed GVT message counting", "real MPI", "MAX_THREADS = 4096 id overflow (F10)"],
+    level_text="bounded component obligations on the receiving side of remote events/anti-messages (anti-message before, after, or without its event); the end-to-end statement is not encoded",
+    queries=[P_EARLY] + P_RANTI + [P_L4],
+)
